@@ -544,7 +544,7 @@ def _dec_special(d, x, ctx, o):
         if "a" in x:
             kw["a"] = _ctor(str, x["a"])
         if "c" in x:
-            kw["c"] = None if x["c"] is None else D(d[1], x["c"])
+            kw["c"] = None if x["c"] is None else D(("opt", d[1]), x["c"])     # the annotation is Optional[e]
         return info["cls"](**kw)
     if k in ("dcself", "dcselft"):
         kw = dict(v=D(d[1], _need(x, "v")))
@@ -807,6 +807,8 @@ def has_union3_with_none(d):
             return True
     if d[0] == "dc":
         return any(has_union3_with_none(("opt", e) if kind == "none" else e) for e, kind in d[2])
+    if d[0] == "dcinh":
+        return has_union3_with_none(("opt", d[1]))
     return any(has_union3_with_none(c) for c in space.children(d))
 
 
